@@ -398,7 +398,14 @@ func validateSupported(log logger.Log, supported map[string]bool) (
 	cssFeature compat.CSSFeature,
 	cssMask compat.CSSFeature,
 ) {
-	for k, v := range supported {
+	// Iterate in sorted order so that diagnostics are deterministic
+	sortedKeys := make([]string, 0, len(supported))
+	for key := range supported {
+		sortedKeys = append(sortedKeys, key)
+	}
+	sort.Strings(sortedKeys)
+	for _, k := range sortedKeys {
+		v := supported[k]
 		if js, ok := compat.StringToJSFeature[k]; ok {
 			jsMask |= js
 			if !v {
@@ -483,7 +490,14 @@ func validateExternals(log logger.Log, fs fs.FS, paths []string) config.External
 func validateAlias(log logger.Log, fs fs.FS, alias map[string]string) map[string]string {
 	valid := make(map[string]string, len(alias))
 
-	for old, new := range alias {
+	// Iterate in sorted order so that diagnostics are deterministic
+	sortedKeys := make([]string, 0, len(alias))
+	for key := range alias {
+		sortedKeys = append(sortedKeys, key)
+	}
+	sort.Strings(sortedKeys)
+	for _, old := range sortedKeys {
+		new := alias[old]
 		if new == "" {
 			log.AddError(nil, logger.Range{}, fmt.Sprintf("Invalid alias substitution: %q", new))
 			continue
@@ -535,7 +549,14 @@ func validateResolveExtensions(log logger.Log, order []string) []string {
 
 func validateLoaders(log logger.Log, loaders map[string]Loader) map[string]config.Loader {
 	result := bundler.DefaultExtensionToLoaderMap()
-	for ext, loader := range loaders {
+	// Iterate in sorted order so that diagnostics are deterministic
+	sortedKeys := make([]string, 0, len(loaders))
+	for key := range loaders {
+		sortedKeys = append(sortedKeys, key)
+	}
+	sort.Strings(sortedKeys)
+	for _, ext := range sortedKeys {
+		loader := loaders[ext]
 		if ext != "" && !isValidExtension(ext) {
 			log.AddError(nil, logger.Range{}, fmt.Sprintf("Invalid file extension: %q", ext))
 		}
@@ -742,7 +763,14 @@ func validatePath(log logger.Log, fs fs.FS, relPath string, pathKind string) str
 }
 
 func validateOutputExtensions(log logger.Log, outExtensions map[string]string) (js string, css string) {
-	for key, value := range outExtensions {
+	// Iterate in sorted order so that diagnostics are deterministic
+	sortedKeys := make([]string, 0, len(outExtensions))
+	for key := range outExtensions {
+		sortedKeys = append(sortedKeys, key)
+	}
+	sort.Strings(sortedKeys)
+	for _, key := range sortedKeys {
+		value := outExtensions[key]
 		if !isValidExtension(value) {
 			log.AddError(nil, logger.Range{}, fmt.Sprintf("Invalid output extension: %q", value))
 		}
@@ -759,7 +787,14 @@ func validateOutputExtensions(log logger.Log, outExtensions map[string]string) (
 }
 
 func validateBannerOrFooter(log logger.Log, name string, values map[string]string) (js string, css string) {
-	for key, value := range values {
+	// Iterate in sorted order so that diagnostics are deterministic
+	sortedKeys := make([]string, 0, len(values))
+	for key := range values {
+		sortedKeys = append(sortedKeys, key)
+	}
+	sort.Strings(sortedKeys)
+	for _, key := range sortedKeys {
+		value := values[key]
 		switch key {
 		case "js":
 			js = value
@@ -879,7 +914,14 @@ func cloneMangleCache(log logger.Log, mangleCache map[string]interface{}) map[st
 		return nil
 	}
 	clone := make(map[string]interface{}, len(mangleCache))
-	for k, v := range mangleCache {
+	// Iterate in sorted order so that diagnostics are deterministic
+	sortedKeys := make([]string, 0, len(mangleCache))
+	for key := range mangleCache {
+		sortedKeys = append(sortedKeys, key)
+	}
+	sort.Strings(sortedKeys)
+	for _, k := range sortedKeys {
+		v := mangleCache[k]
 		if v == "__proto__" {
 			// This could cause problems for our binary serialization protocol. It's
 			// also unnecessary because we already avoid mangling this property name.
@@ -1406,7 +1448,14 @@ func validateBuildOptions(
 		if options.LegalComments.HasExternalFile() {
 			log.AddError(nil, logger.Range{}, "Cannot use linked or external legal comments without an output path")
 		}
-		for _, loader := range options.ExtensionToLoader {
+		// Iterate in sorted order so that diagnostics are deterministic
+		sortedKeys := make([]string, 0, len(options.ExtensionToLoader))
+		for key := range options.ExtensionToLoader {
+			sortedKeys = append(sortedKeys, key)
+		}
+		sort.Strings(sortedKeys)
+		for _, key := range sortedKeys {
+			loader := options.ExtensionToLoader[key]
 			if loader == config.LoaderFile {
 				log.AddError(nil, logger.Range{}, "Cannot use the \"file\" loader without an output path")
 				break
